@@ -16,11 +16,13 @@ type Field struct {
 	Off     int    `json:"off"`
 	Default uint64 `json:"default,omitempty"` // bit pattern of the default (data kinds)
 	DefText string `json:"def_text,omitempty"`
-	HasDef  bool   `json:"has_def,omitempty"` // pointer kinds: a non-null default is declared
-	Disc    int    `json:"disc"`              // discriminant value, -1 = not a union member
-	Ref     int    `json:"ref"`               // enum / struct / group index
-	GoName  string `json:"go_name,omitempty"` // $Go.name annotation: the accessors are named after this instead of Name
-	Elem    string `json:"elem,omitempty"`    // list element kind
+	HasDef  bool   `json:"has_def,omitempty"`  // pointer kinds: a non-null default is declared
+	DefWord uint64 `json:"def_word,omitempty"` // struct defaults: first data word of the default value (distinct per field)
+	DefLen  int    `json:"def_len,omitempty"`  // list defaults: number of elements of the default value
+	Disc    int    `json:"disc"`               // discriminant value, -1 = not a union member
+	Ref     int    `json:"ref"`                // enum / struct / group index
+	GoName  string `json:"go_name,omitempty"`  // $Go.name annotation: the accessors are named after this instead of Name
+	Elem    string `json:"elem,omitempty"`     // list element kind
 	ElemRef int    `json:"elem_ref,omitempty"`
 }
 
@@ -127,6 +129,18 @@ func (s *space) allocPtr(t *rapid.T) (int, bool) {
 	return cands[i], true
 }
 
+// lowestPtr takes the lowest free pointer slot (every member of a union starts from the same free space, so two
+// members that ask this way share the slot).
+func (s *space) lowestPtr() (int, bool) {
+	for i, u := range s.ptrs {
+		if !u {
+			s.ptrs[i] = true
+			return i, true
+		}
+	}
+	return 0, false
+}
+
 func (s *space) extent() (words, ptrs int) {
 	for b, u := range s.bits {
 		if u {
@@ -197,9 +211,15 @@ func defaultBits(t *rapid.T, kind string, nenum int) uint64 {
 func (g *gen) fields(si int, sp *space, depth int) {
 	t := g.t
 	n := rapid.IntRange(1, 9).Draw(t, "nfields")
+	// the first top-level struct of every schema has a union whose first two members are struct pointers with
+	// different defaults in one pointer slot
+	forced := si == 0 && depth == 0
+	if forced && n < 3 {
+		n = 3
+	}
 	// union?
 	members := 0
-	if n >= 2 && rapid.IntRange(0, 1).Draw(t, "union") == 1 {
+	if n >= 2 && (forced || rapid.IntRange(0, 1).Draw(t, "union") == 1) {
 		members = rapid.IntRange(2, min(n, 5)).Draw(t, "members")
 		off, ok := sp.alloc(t, 16)
 		if !ok {
@@ -218,7 +238,7 @@ func (g *gen) fields(si int, sp *space, depth int) {
 	}
 	// in a third of the unions most members are pointers, half of them structs with or without a default: members
 	// share pointer slots, and what one member declares (a default, a type) must not show through another
-	ptrHeavy := members > 0 && rapid.IntRange(0, 2).Draw(t, "ptrheavy") == 0
+	ptrHeavy := members > 0 && (forced || rapid.IntRange(0, 2).Draw(t, "ptrheavy") == 0)
 	overlay := (*space)(nil)
 	disc := 0
 	// fields outside the union are placed first: union members may then share storage with each other, but with
@@ -250,7 +270,8 @@ func (g *gen) fields(si int, sp *space, depth int) {
 		}
 		choice := rapid.IntRange(0, 9).Draw(t, "kind")
 		heavy := ptrHeavy && isMember[k] && rapid.IntRange(0, 3).Draw(t, "heavy") != 0
-		if heavy {
+		twin := forced && isMember[k] && f.Disc < 2
+		if heavy || twin {
 			choice = 7
 		}
 		switch {
@@ -286,12 +307,23 @@ func (g *gen) fields(si int, sp *space, depth int) {
 					f.Kind = "struct"
 				case 2:
 					f.Kind = "interface"
+				case 3:
+					f.Kind = "list"
 				}
 			}
 			if f.Kind == "interface" && len(g.m.Ifaces) == 0 {
 				f.Kind = "anyptr"
 			}
-			p, ok := target.allocPtr(t)
+			if twin {
+				f.Kind = "struct"
+			}
+			var p int
+			var ok bool
+			if twin {
+				p, ok = target.lowestPtr()
+			} else {
+				p, ok = target.allocPtr(t)
+			}
 			if !ok {
 				continue
 			}
@@ -310,10 +342,19 @@ func (g *gen) fields(si int, sp *space, depth int) {
 				if heavy {
 					f.HasDef = rapid.Bool().Draw(t, "heavydef")
 				}
+				if twin {
+					f.HasDef = true
+				}
+				if f.HasDef {
+					f.DefWord = rapid.Uint64().Draw(t, "defword") | 1
+				}
 			case "interface":
 				f.Ref = rapid.IntRange(0, len(g.m.Ifaces)-1).Draw(t, "iref")
 			case "list":
 				f.Elem = rapid.SampledFrom(elemKinds).Draw(t, "elem")
+				if rapid.IntRange(0, 3).Draw(t, "ldef") == 0 || heavy && rapid.Bool().Draw(t, "heavyldef") {
+					f.HasDef, f.DefLen = true, rapid.IntRange(1, 5).Draw(t, "deflen")
+				}
 				switch f.Elem {
 				case "struct":
 					f.ElemRef = g.topLevel(rapid.IntRange(0, 1<<20).Draw(t, "eref"))
@@ -410,10 +451,30 @@ func GenModel(t *rapid.T) Model {
 		}
 		m.Structs = append(m.Structs, st)
 	}
+	hugeAt := -1
+	if rapid.IntRange(0, 5).Draw(t, "huge") == 0 {
+		hugeAt = rapid.IntRange(0, nstructs-1).Draw(t, "hugeat")
+	}
 	for i := 0; i < nstructs; i++ {
 		words := rapid.IntRange(1, 5).Draw(t, "words")
+		if i == hugeAt {
+			// a data section around 2^16 bytes: sizes computed in 16 bits wrap here
+			words = rapid.SampledFrom([]int{8191, 8192, 8193}).Draw(t, "hugewords")
+		}
 		sp := &space{bits: make([]bool, words*64), ptrs: make([]bool, rapid.IntRange(1, 6).Draw(t, "ptrs"))}
 		g.fields(i, sp, 0)
+		if i == hugeAt {
+			free := true
+			for b := (words - 1) * 64; b < words*64; b++ {
+				free = free && !sp.bits[b]
+			}
+			if free {
+				for b := (words - 1) * 64; b < words*64; b++ {
+					sp.bits[b] = true
+				}
+				m.Structs[i].Fields = append(m.Structs[i].Fields, Field{Name: "flast", Kind: "uint64", Off: words - 1, Disc: -1, Ref: -1})
+			}
+		}
 		dw, pc := sp.extent()
 		// the compiler never leaves trailing unused words, but a struct that lost fields in an upgrade may have them
 		if rapid.IntRange(0, 4).Draw(t, "slack") == 0 {
